@@ -112,18 +112,35 @@ def _limits(cpu_s):
     return f
 
 
-def run_tool(flavour, tool, schema_name, schema_text, perturb=None, args=(), cpu_s=20, keep_files=None, want_bytes=()):
+def run_tool(flavour, tool, schema_name, schema_text, perturb=None, args=(), cpu_s=20, keep_files=None, want_bytes=(), shared_dir=True):
     """One execution. perturb: dict with keys heap_seed, env_pad, loader, cwd_depth, cwd_name, path_style,
     lc_all, express_path, clock, prior_runs, aslr.  Returns an observation dict."""
     pb = dict(perturb or {})
     exe = tool_path(flavour, tool)
-    top = tempfile.mkdtemp(prefix="verif-tool.", dir=os.environ.get("TMPDIR") or "/tmp")
+    # The run directory is a function of (tool, schema) only - never of the perturbation or of the process - so that a
+    # tool which writes absolute paths into its output gives the same bytes in the reference run, the perturbed run and
+    # every replay.  A lock serialises the runs that share the directory.
+    text_b = schema_text if isinstance(schema_text, bytes) else schema_text.encode("latin-1")
+    base = os.path.join(os.environ.get("TMPDIR") or "/tmp", "verif-tool")
+    os.makedirs(base, exist_ok=True)
+    import fcntl
+    if shared_dir:
+        key = "%s-%s-%s-%s" % (flavour, tool, schema_name[:24], hashlib.sha256(text_b).hexdigest()[:10])
+        top = os.path.join(base, key)
+        lockf = open(os.path.join(base, key + ".lock"), "w")
+        fcntl.flock(lockf, fcntl.LOCK_EX)
+    else:
+        # nothing this caller compares depends on the path: a private directory, no lock
+        top = tempfile.mkdtemp(prefix="p.", dir=base)
+        lockf = None
     try:
+        shutil.rmtree(top, ignore_errors=True)
+        os.makedirs(top)
         src_dir = os.path.join(top, "in")
         os.makedirs(src_dir)
         src = os.path.join(src_dir, schema_name + ".exp")
         with open(src, "wb") as f:
-            f.write(schema_text if isinstance(schema_text, bytes) else schema_text.encode("latin-1"))
+            f.write(text_b)
         cwd = os.path.join(top, "w")
         for k in range(int(pb.get("cwd_depth", 0))):
             cwd = os.path.join(cwd, (pb.get("cwd_name") or "d") + str(k))
@@ -195,6 +212,9 @@ def run_tool(flavour, tool, schema_name, schema_text, perturb=None, args=(), cpu
         return obs
     finally:
         shutil.rmtree(top, ignore_errors=True)
+        if lockf is not None:
+            fcntl.flock(lockf, fcntl.LOCK_UN)
+            lockf.close()
 
 
 def scrub(s, top):
